@@ -182,6 +182,11 @@ func TestC18(t *testing.T) {
 				if f := c.D.Samples[si].Flow; f != nil {
 					for ri := range f.Recs {
 						if f.Recs[ri].Raw != nil && rapid.Bool().Draw(t, "weirdthis") {
+							if rapid.IntRange(0, 3).Draw(t, "weirdl2") == 0 {
+								wire.WeirdL2(t, &f.Recs[ri].Raw.Pkt)
+								c.Weird = true
+								continue
+							}
 							wire.WeirdL4(t, &f.Recs[ri].Raw.Pkt)
 							c.Weird = true
 						}
